@@ -25,7 +25,7 @@ CHECKS = {
             "6/12 separate processes + 3 in-process generations per group; grammars with several automatically numbered tokens, several goto targets per state and tie rows.",
             "The verdict is equality of real output bytes.", "5 C14"),
     "C15": ("model_checking",
-            "Sessions.tla / Contexts.tla model-checked (independence after init; isolation under every interleaving); their scenario spaces replayed on generated parsers: histories in one process (5 variants, re-used context, shared TypeScript module), two -o contexts under every schedule of token fetches with GetToken as scheduler gate, 8 contexts in parallel under -race; ConfSessions.tla compares each parse with the same parse alone",
+            "Sessions.tla / Contexts.tla model-checked (independence after init; isolation under every interleaving); their scenario spaces replayed on generated parsers: histories in one process (5 variants, re-used context, shared TypeScript module), two -o contexts under every schedule of token fetches with GetToken as scheduler gate, 8 contexts in parallel under -race; a deep-nesting probe (stacks of 5 to 1200 entries on fresh and re-initialised parser objects); ConfSessions.tla compares each parse with the same parse alone",
             "Each parse's full event log (tokens fetched, reductions, outcome, value) must equal that of the same parse in a fresh process / alone.",
             "Schedules above the cap are sampled; the race detector needs cgo (present).", "5 C15"),
     "C18": ("model_checking",
